@@ -407,10 +407,16 @@ def build_and_run(work, lib, gen_files, front, asan=False, run=True):
     """work: directory holding the generated wrapper files (gen_files = their names).
     Returns dict(stage, detail, stream)."""
     srcs = xlib.subject_sources(lib)
+    drv = c_driver(lib) if front == "c" else f_driver(lib)
+    return build_custom(work, srcs, lib["language"] == "c++", gen_files, front, drv, asan=asan, run=run)
+
+
+def build_custom(work, srcs, cxx, gen_files, front, driver_text, asan=False, run=True, stdin_text=None):
+    """Generic build: subject sources (dict name -> text, must contain xlib.c/.cpp and vf_support.*),
+    generated wrapper files, a driver text.  Returns dict(stage, detail, stream)."""
     for fn, text in srcs.items():
         with open(os.path.join(work, fn), "w") as fp:
             fp.write(text)
-    cxx = lib["language"] == "c++"
     san = SAN if asan else []
     objs = []
 
@@ -438,7 +444,7 @@ def build_and_run(work, lib, gen_files, front, asan=False, run=True):
             return dict(stage="wrapper-build", detail=err, stream=[])
     if front == "c":
         with open(os.path.join(work, "drv.c"), "w") as fp:
-            fp.write(c_driver(lib))
+            fp.write(driver_text)
         err = compile_(["gcc", "-std=c99"], "drv.c")
         if err:
             return dict(stage="driver-build", detail=err, stream=[])
@@ -455,7 +461,7 @@ def build_and_run(work, lib, gen_files, front, asan=False, run=True):
                 if err:
                     return dict(stage="wrapper-build", detail=err, stream=[])
         with open(os.path.join(work, "drv.f90"), "w") as fp:
-            fp.write(f_driver(lib))
+            fp.write(driver_text)
         err = compile_(["gfortran", "-ffree-form", "-ffree-line-length-none"], "drv.f90")
         if err:
             return dict(stage="driver-build", detail=err, stream=[])
@@ -469,7 +475,7 @@ def build_and_run(work, lib, gen_files, front, asan=False, run=True):
     if asan:
         env["ASAN_OPTIONS"] = "detect_leaks=1:halt_on_error=1"
     try:
-        rc, so, se = run_cmd([os.path.join(work, "drv")], work, timeout=120, env=env)
+        rc, so, se = run_cmd([os.path.join(work, "drv")], work, timeout=300, env=env)
     except subprocess.TimeoutExpired:
         return dict(stage="run", detail="driver timed out", stream=[])
     stream = [l for l in so.split("\n") if l]
